@@ -631,6 +631,16 @@ Next:
     }
   }
 
+  // Validate TSIB (AMX) Address
+  // ---------------------------
+
+  // AMX tile load/store instructions require SIB byte, which is not used by RIP-relative addressing.
+  if (mem_op && common_info.is_tsib_op()) {
+    if (ASMJIT_UNLIKELY(mem_op->has_base_label() || mem_op->base_type() == RegType::kPC || mem_op->is_addr_rel())) {
+      return make_error(Error::kInvalidAddress);
+    }
+  }
+
   // Validate AVX512 Options
   // -----------------------
 
